@@ -230,7 +230,7 @@ def r5(ctx):
         conds = [(norm(t), p) for (t, p) in cfg.conditions_of(cfg.node_of(rets[0]).id)] if rets else []
         mvars = [norm(n.targets[0]) for n in ast.walk(loops[0]) if isinstance(n, ast.Assign) and isinstance(n.value, ast.Call) and isinstance(n.value.func, ast.Attribute)
                  and n.value.func.attr in ("match", "fullmatch")]
-        ok2 = len(rets) == 1 and len(mvars) == 1 and (mvars[0], True) in conds and isinstance(rets[0].value, ast.Tuple) and norm(rets[0].value.elts[0]) == norm(loops[0].target.elts[2])
+        ok2 = len(rets) == 1 and len(mvars) == 1 and bool({(mvars[0], True), ("%s is not None" % mvars[0], True), ("%s is None" % mvars[0], False)} & set(conds)) and isinstance(rets[0].value, ast.Tuple) and norm(rets[0].value.elts[0]) == norm(loops[0].target.elts[2])
         ctx.check(ok2, "C16.R5", gr, "the first matching route is returned at once", witness=conds)
         others = [n for n in walk_own(gr.node) if isinstance(n, ast.Return) and n not in rets]
         ctx.check(all(norm(o.value) == "None" for o in others) and len(others) == 2, "C16.R5", gr, "no match / unknown method -> None", witness=[norm(o) for o in others])
